@@ -241,8 +241,8 @@ func newPrelude() *Prelude {
 	p.add("(declare-sort Str 0)")
 	p.add("(declare-datatypes ((Slice 0)) (((mkSlice (sarr Int) (soff Int) (slen Int) (scap Int)))))")
 	p.add("(declare-datatypes ((Obj 0)) (((mkObj (otag Int) (oref Int) (ostr Str)))))")
-	p.add("(declare-fun str_len (Str) Int)")
 	p.add("(declare-const str_empty Str)")
+	p.add("(declare-fun str_len (Str) Int)")
 	p.add("(declare-fun str_cat (Str Str) Str)")
 	p.add("(declare-fun str_sub (Str Int Int) Str)")
 	p.add("(declare-fun str_at (Str Int) (_ BitVec 8))")
@@ -365,6 +365,17 @@ func carrierAxioms() (axioms map[string]string, lemmas map[string]string) {
 	lemmas["F_ZERO"] = "(set-logic QF_FPBV)\n(assert (not (= ((_ to_fp 11 53) RNE #x0000000000000000) (_ +zero 11 53))))\n(check-sat)\n"
 	axioms["F_ONE"] = "(= (toF64 #x0000000000000001) " + f64Lit(1.0) + ")"
 	lemmas["F_ONE"] = "(set-logic QF_FPBV)\n(assert (not (= ((_ to_fp 11 53) RNE #x0000000000000001) " + f64Lit(1.0) + ")))\n(check-sat)\n"
+	// order facts of the int<->bv bridge at the constants contracts compare against (two's
+	// complement, |n| < 2^63); opt-in per unit with `axioms BRIDGE_ORD`
+	{
+		var cs []string
+		for _, c := range []int64{-4503599627370496, -2147483648, -32768, -128, 0, 127, 255, 32767, 2147483647, 4294967295, 4503599627370496} {
+			lit := bvLit(uint64(c), 64)
+			cs = append(cs, fmt.Sprintf("(= (<= n %s) (bvsle (i2bv64 n) %s)) (= (>= n %s) (bvsge (i2bv64 n) %s))", intLit(c), lit, intLit(c), lit))
+		}
+		cs = append(cs, "(= (i2bv64 (- n)) (bvneg (i2bv64 n)))")
+		axioms["BRIDGE_ORD"] = "(forall ((n Int)) (! (and " + strings.Join(cs, " ") + ") :pattern ((i2bv64 n))))"
+	}
 	// gc/amd64 behaviour of the implementation-defined out-of-range float->uint32 conversion
 	// (CVTTSD2SQ then truncation). ASSUMPTION, opt-in per unit, not a lemma.
 	axioms["AMD64_u32"] = fmt.Sprintf("(forall ((y (_ BitVec 64))) (! (=> %s (= (fromF_u32 (toF64 y)) ((_ extract 31 0) y))) :pattern ((fromF_u32 (toF64 y)))))", inRange("s64", "y"))
